@@ -8,6 +8,10 @@
 From PVPb Require Export Wire.
 Open Scope Z_scope.
 
+(* the functions of pilota/src/prost/*.rs that call Buf::chunk() (regenerated: Generated/PbConsts.v chunk_readers) -- the only
+   one the models account for *)
+Definition accounted_chunk_readers : list chunk_reader := [CRDecodeVarint].
+
 Definition cbuf : Type := list (list byte).
 
 (* Buf::chunk(): the first chunk that has bytes (a lawful Buf returns an empty slice only when nothing remains) *)
